@@ -55,6 +55,12 @@ for norm in (L1, L2, LMAX):
     for (n, p) in ((2, 2), (3, 2), (2, 3)):
         quick += norm_jobs(n, p, norm)
 
+# rows of very small and very large norm (entries = integers times 2^scale, still exact)
+for norm in (L1, L2, LMAX):
+    for scale in (-60, -30, 20):
+        quick.append(job("c16.norm", secs=60, qto=QTO, n=1, p=2, norm=norm, scale=scale, B=8))
+        quick.append(job("c16.norm", secs=60, qto=QTO, n=2, p=1, norm=norm, scale=scale, B=8))
+
 # recorded defect role: an all-zero row is divided by its zero norm (NaN) -- "keeps all output finite" fails
 defects = [job("c16.norm", secs=30, n=2, p=2, norm=norm, zero=0) for norm in (L1, L2, LMAX)]
 
